@@ -16,7 +16,8 @@ Definition no_repeat_full : Prop :=
 (* inputs `1` then `(/ 1 0)`: after the failed input *1 and *2 both hold the result of the first *)
 Definition witness : list input := [IValue (VInt 1); IRunError (VExc "ZeroDivisionError" 0) false].
 
-Lemma witness_on_generated_code :
+(* the generated code, run on the witness: *1 = *2 = 1 and *e is the ZeroDivisionError *)
+Definition witness_run : Prop :=
   match run_session witness (fun _ => None) with
   | Some (h, _) =>
       match observe h with
@@ -25,6 +26,7 @@ Lemma witness_on_generated_code :
       end
   | None => False
   end.
+Lemma witness_on_generated_code : witness_run.
 Proof. vm_compute. repeat split. Qed.
 
 Lemma no_repeat_refuted : ~ no_repeat_full.
@@ -40,7 +42,8 @@ Qed.
 (* a history that meets the hypotheses of the positive theorems and exercises the shifting *)
 Definition good_history : list input :=
   [IValue (VInt 1); IIncomplete; IValue (VInt 2); IValue VNone; IValue (VInt 3); IIncomplete; IValue (VInt 4)].
-Example good_history_ok :
+Definition good_history_meets : Prop :=
   forallb unfailing good_history = true /\
   slots_are (run_abstract (fun _ => None) good_history initial) [VInt 4; VInt 3; VNone; VInt 2; VInt 1].
+Example good_history_ok : good_history_meets.
 Proof. split; [reflexivity|]. vm_compute. repeat split. Qed.
